@@ -149,8 +149,15 @@ class MuEngine(Engine):
         # tiny pure helpers are interpreted in place so that NULL-test refinements of their arguments reach the caller
         return callee not in self.no_memo and not self._is_small_pure(callee)
 
+    HOME_FILES = ('internal/mu.c', 'internal/mu_wait.c', 'internal/cv.c')
+
     def _inline(self, callee):
-        return callee in self._relevant or callee in self.generic_atomic or self._is_small_pure(callee)
+        if callee in self._relevant or callee in self.generic_atomic or self._is_small_pure(callee):
+            return True
+        # a static helper extracted from the mutex / cv code (wake loop, release loop, ...) is part of the protocol even when it touches no
+        # protocol word itself: interpret it in place so that its wake-ups, list operations and NULL tests are seen in the caller's state
+        f = self.mod.func(callee)
+        return f is not None and not f.decl and callee not in self.opaque and any((f.file or '').endswith(x) for x in self.HOME_FILES)
     QUEUE_FIELDS = {'mu': 'nsync_mu_s_.waiters', 'cv': 'nsync_cv_s_.waiters'}
     RING_FIELDS = ('nsync_dll_element_s_.next', 'nsync_dll_element_s_.prev')
     SLEEP_CALLS = ('nsync_mu_semaphore_p', 'nsync_mu_semaphore_p_with_deadline', 'nsync_sem_wait_with_cancel_')
@@ -240,6 +247,13 @@ class MuEngine(Engine):
 
     LOCK_SLOW = 'nsync_mu_lock_slow_'
     CALLER_ONLY_GHOST = (('cond_last',),)
+
+    def _ghost_framed(self, k, bases):
+        # the designated-waker debt is discharged by a semaphore post wherever it happens (also inside a helper that is not given the
+        # mutex pointer, e.g. an extracted wake loop): it always travels into the callee and back
+        if isinstance(k, tuple) and len(k) == 3 and k[0] == 'flag' and k[1] == 'owes_desig':
+            return False
+        return Engine._ghost_framed(self, k, bases)
 
     def atomic_load_other(self, st, f, inst, p):
         # a thread polling the waiting flag of its own waiter record has queued itself: from here on it "has waited"
